@@ -271,6 +271,14 @@ def abs : Rule :=
     dother := none,
     plain := some (.un .abs (.var 0)) }
 
+/-- functions.py:90 l2_norm(dim, var) with dim == 1 -/
+def l2_norm_dim1 : Rule :=
+  { name := "l2_norm_dim1",
+    val := (.un .abs (.var 0)),
+    dself := (.un .sign (.var 0)),
+    dother := none,
+    plain := none }
+
 /-- functions.py:145 safe_power(power, zero_val, tol, var) -/
 def safe_power : Rule :=
   { name := "safe_power",
@@ -391,7 +399,15 @@ def heaviside_smooth : Rule :=
     dother := none,
     plain := some (.mul (.const ((1 : Rat) / 2)) (.add (.const (1 : Rat)) (.mul (.mul (.const (2 : Rat)) (.pow .pi (.const (-1 : Rat)))) (.un .arctan (.mul (.var 0) (.pow (.var 1) (.const (-1 : Rat)))))))) }
 
-/-- functions.py:467 characteristic_function(tol, var) -/
+/-- functions.py:354 RegularizedHeaviside(partial(heaviside_smooth, eps=eps)).__call__(var, zerovalue) -/
+def regularized_heaviside : Rule :=
+  { name := "regularized_heaviside",
+    val := (.heaviside (.var 0) (.const (0 : Rat))),
+    dself := (.mul (.mul (.pow .pi (.const (-1 : Rat))) (.var 1)) (.pow (.add (.pow (.var 1) (.const (2 : Rat))) (.pow (.var 0) (.const (2 : Rat)))) (.const (-1 : Rat)))),
+    dother := none,
+    plain := some (.heaviside (.var 0) (.const (0 : Rat))) }
+
+/-- functions.py:468 characteristic_function(tol, var) -/
 def characteristic_function : Rule :=
   { name := "characteristic_function",
     val := (.ifgt (.un .abs (.var 0)) (.var 1) (.const (0 : Rat)) (.const (1 : Rat))),
@@ -399,10 +415,63 @@ def characteristic_function : Rule :=
     dother := none,
     plain := some (.ifgt (.un .abs (.var 0)) (.var 1) (.const (0 : Rat)) (.const (1 : Rat))) }
 
+/-- functions.py:365 maximum(var_0, var_1), operands AdAd -/
+def maximum_AdAd : Rule :=
+  { name := "maximum_AdAd",
+    val := (.ifgt (.var 1) (.var 0) (.var 1) (.var 0)),
+    dself := (.ifgt (.var 1) (.var 0) (.const (0 : Rat)) (.const (1 : Rat))),
+    dother := some (.ifgt (.var 1) (.var 0) (.const (1 : Rat)) (.const (0 : Rat))),
+    plain := some (.ifgt (.var 1) (.var 0) (.var 1) (.var 0)) }
+
+/-- functions.py:365 maximum(var_0, var_1), operands AdA -/
+def maximum_AdA : Rule :=
+  { name := "maximum_AdA",
+    val := (.ifgt (.var 1) (.var 0) (.var 1) (.var 0)),
+    dself := (.ifgt (.var 1) (.var 0) (.const (0 : Rat)) (.const (1 : Rat))),
+    dother := none,
+    plain := some (.ifgt (.var 1) (.var 0) (.var 1) (.var 0)) }
+
+/-- functions.py:365 maximum(var_0, var_1), operands AdS -/
+def maximum_AdS : Rule :=
+  { name := "maximum_AdS",
+    val := (.ifgt (.mul (.const (1 : Rat)) (.var 1)) (.var 0) (.mul (.const (1 : Rat)) (.var 1)) (.var 0)),
+    dself := (.ifgt (.mul (.const (1 : Rat)) (.var 1)) (.var 0) (.const (0 : Rat)) (.const (1 : Rat))),
+    dother := none,
+    plain := some (.ifgt (.mul (.const (1 : Rat)) (.var 1)) (.var 0) (.mul (.const (1 : Rat)) (.var 1)) (.var 0)) }
+
+/-- functions.py:365 maximum(var_0, var_1), operands AAd -/
+def maximum_AAd : Rule :=
+  { name := "maximum_AAd",
+    val := (.ifgt (.var 0) (.var 1) (.var 0) (.var 1)),
+    dself := (.ifgt (.var 0) (.var 1) (.const (1 : Rat)) (.const (0 : Rat))),
+    dother := none,
+    plain := some (.ifgt (.var 0) (.var 1) (.var 0) (.var 1)) }
+
+/-- functions.py:365 maximum(var_0, var_1), operands SAd -/
+def maximum_SAd : Rule :=
+  { name := "maximum_SAd",
+    val := (.ifgt (.var 0) (.mul (.const (1 : Rat)) (.var 1)) (.var 0) (.mul (.const (1 : Rat)) (.var 1))),
+    dself := (.ifgt (.var 0) (.mul (.const (1 : Rat)) (.var 1)) (.const (1 : Rat)) (.const (0 : Rat))),
+    dother := none,
+    plain := some (.ifgt (.var 0) (.mul (.const (1 : Rat)) (.var 1)) (.var 0) (.mul (.const (1 : Rat)) (.var 1))) }
+
+/-- functions.py:90 l2_norm(dim, var), dim >= 2: var 0 = one entry of a group, var 1 = the group's sum of squares -/
+def l2_norm : NormRule :=
+  { name := "l2_norm",
+    val := (.un .sqrt (.var 1)),
+    coef := (.ifgt (.un .sqrt (.var 1)) (.const ((4951760157141521 : Rat) / 4951760157141521099596496896)) (.div (.var 0) (.un .sqrt (.var 1))) (.const (1 : Rat))),
+    plain := some (.un .sqrt (.var 1)) }
+
 /-- arithmetic rules, in source order -/
 def arith : List Rule := [add_S, add_A, add_Ad, radd_S, radd_A, radd_Ad, sub_S, sub_A, sub_Ad, rsub_S, rsub_A, rsub_Ad, mul_S, mul_A, mul_Ad, rmul_S, rmul_A, pow_S, pow_A, pow_Ad, rpow_S, rpow_A, rpow_Ad, truediv_S, truediv_A, truediv_Ad, rtruediv_S, rtruediv_A, rtruediv_Ad, neg]
 /-- library functions, in source order -/
-def lib : List Rule := [exp, log, abs, safe_power, sin, cos, tan, arcsin, arccos, arctan, sinh, cosh, tanh, arcsinh, arccosh, arctanh, heaviside, heaviside_smooth, characteristic_function]
+def lib : List Rule := [exp, log, abs, l2_norm_dim1, safe_power, sin, cos, tan, arcsin, arccos, arctan, sinh, cosh, tanh, arcsinh, arccosh, arctanh, heaviside, heaviside_smooth, regularized_heaviside, characteristic_function]
+/-- maximum(var_0, var_1) per operand kinds (AdArray / numpy array / python scalar) -/
+def maxrules : List Rule := [maximum_AdAd, maximum_AdA, maximum_AdS, maximum_AAd, maximum_SAd]
+/-- every function / class defined at the top level of functions.py, in source order (each has a rule above) -/
+def functions_found : List String := ["exp", "log", "abs", "l2_norm", "safe_power", "sin", "cos", "tan", "arcsin", "arccos", "arctan", "sinh", "cosh", "tanh", "arcsinh", "arccosh", "arctanh", "heaviside", "heaviside_smooth", "RegularizedHeaviside", "maximum", "characteristic_function"]
+/-- library functions whose numpy-array branch raises -/
+def plain_raising : List (String × String) := []
 /-- operand combinations that raise -/
 def raising : List (String × String) := [("add_Sp", "ValueError"), ("radd_Sp", "ValueError"), ("sub_Sp", "ValueError"), ("rsub_Sp", "ValueError"), ("mul_Sp", "ValueError"), ("rmul_Ad", "RuntimeError"), ("rmul_Sp", "ValueError"), ("pow_Sp", "ValueError"), ("rpow_Sp", "ValueError"), ("truediv_Sp", "ValueError"), ("rtruediv_Sp", "ValueError"), ("matmul_S", "ValueError"), ("matmul_A", "ValueError"), ("matmul_Ad", "ValueError"), ("matmul_Sp", "ValueError"), ("rmatmul_S", "ValueError"), ("rmatmul_A", "ValueError"), ("rmatmul_Ad", "ValueError")]
 /-- `M @ AdArray` for sparse `M` is `AdArray(M @ val, M @ jac)`; `__getitem__` and `initAdArrays` have the text the hand-written model mirrors -/
